@@ -265,6 +265,11 @@ theorem partRead_ok {cfg : Cfg} {fl : Flavor} {np : Nat} {co : Option Nat} {bs :
     obtain ⟨hdr, s⟩ := p0
     rw [h0] at h
     dsimp only at h
+    by_cases hcnt : cfg.checkCount = true ∧ UgridOffsets.has_count_check = true ∧
+        ¬ UgridOffsets.counts_fit (bs.length : Int) (UgridOffsets.ibyte fl.fat) (hdr.getD 0 0) (hdr.getD 1 0)
+          (hdr.getD 2 0) (hdr.getD 3 0) (hdr.getD 4 0) (hdr.getD 5 0) (hdr.getD 6 0)
+    · rw [if_pos hcnt] at h; simp at h
+    rw [if_neg hcnt] at h
     by_cases hz : partHeaderHazard np hdr = true
     · rw [if_pos hz] at h; simp at h
     · rw [if_neg hz] at h
@@ -286,5 +291,39 @@ theorem partRead_ok {cfg : Cfg} {fl : Flavor} {np : Nat} {co : Option Nat} {bs :
           have := hm p hp c hc
           unfold partIndexOk at this
           simpa using (List.all_eq_true.1 this) x hx
+
+/-- an accepted parallel read with the count test: the seven header counts pass `counts_fit` against the file size -/
+theorem partRead_counts {cfg : Cfg} (hcc : cfg.checkCount = true) (hgen : UgridOffsets.has_count_check = true)
+    {fl : Flavor} {np : Nat} {co : Option Nat} {bs : Bytes} {pm : PartMesh}
+    (h : partReadWith cfg fl np co bs = .ok pm) :
+    ∃ hdr rest, rdHeaderPart fl bs = .ok (hdr, rest) ∧ pm.nnode = hdr.getD 0 0 ∧
+      UgridOffsets.counts_fit (bs.length : Int) (UgridOffsets.ibyte fl.fat) (hdr.getD 0 0) (hdr.getD 1 0)
+        (hdr.getD 2 0) (hdr.getD 3 0) (hdr.getD 4 0) (hdr.getD 5 0) (hdr.getD 6 0) := by
+  unfold partReadWith at h
+  cases h0 : rdHeaderPart fl bs with
+  | error e => rw [h0] at h; simp at h
+  | ok p0 =>
+    obtain ⟨hdr, s⟩ := p0
+    rw [h0] at h
+    dsimp only at h
+    by_cases hfit : UgridOffsets.counts_fit (bs.length : Int) (UgridOffsets.ibyte fl.fat) (hdr.getD 0 0) (hdr.getD 1 0)
+          (hdr.getD 2 0) (hdr.getD 3 0) (hdr.getD 4 0) (hdr.getD 5 0) (hdr.getD 6 0)
+    · refine ⟨hdr, s, rfl, ?_, hfit⟩
+      rw [if_neg (fun hc => hc.2.2 hfit)] at h
+      by_cases hz : partHeaderHazard np hdr = true
+      · rw [if_pos hz] at h; simp at h
+      · rw [if_neg hz] at h
+        cases hv : rdVerts fl (hdr.getD 0 0).toNat s with
+        | error e => rw [hv] at h; simp at h
+        | ok pv =>
+          rw [hv] at h
+          dsimp only at h
+          cases hs : partSections cfg fl bs np co hdr Kind.all with
+          | error e => rw [hs] at h; simp at h
+          | ok css =>
+            rw [hs] at h
+            simp only [Except.ok.injEq] at h
+            subst h; rfl
+    · rw [if_pos ⟨hcc, hgen, hfit⟩] at h; simp at h
 
 end Refine.Lemmas.Ugrid
